@@ -27,12 +27,19 @@ func TestVerifC04PPROF(t *testing.T) {
 	if pb := os.Getenv("VERIF_PORTBASE"); pb != "" {
 		fmt.Sscan(pb, &port)
 	}
+	basePort := port
+	for ti, trusted := range []bool{false, true} {
+		// the same server twice: without trusted proxies, and with 127.0.0.1 as its only trusted proxy
+		port := basePort + ti
+		var tp conf.IPNetworks
+		if trusted {
+			json.Unmarshal([]byte(`["127.0.0.1/32"]`), &tp) //nolint:errcheck
+		}
 	am := &auth.Manager{Method: conf.AuthMethodInternal}
-	pp := &PPROF{Address: fmt.Sprintf("127.0.0.1:%d", port), ReadTimeout: conf.Duration(10 * time.Second), WriteTimeout: conf.Duration(30 * time.Second), AuthManager: am, Parent: c04Log{}}
+	pp := &PPROF{Address: fmt.Sprintf("127.0.0.1:%d", port), TrustedProxies: tp, ReadTimeout: conf.Duration(10 * time.Second), WriteTimeout: conf.Duration(30 * time.Second), AuthManager: am, Parent: c04Log{}}
 	if err := pp.Initialize(); err != nil {
 		t.Fatal(err)
 	}
-	defer pp.Close()
 	var routes []vmon.AdminRoute
 	for _, ri := range pp.httpServer.Handler.(*gin.Engine).Routes() {
 		// skip the sampling endpoints that block for seconds when admitted
@@ -43,7 +50,7 @@ func TestVerifC04PPROF(t *testing.T) {
 		routes = append(routes, vmon.AdminRoute{Method: ri.Method, URL: fmt.Sprintf("http://127.0.0.1:%d%s", port, ri.Path), Action: "pprof"})
 	}
 	r.Count("pprof_routes_from_live_router", int64(len(routes)))
-	vmon.AdminAuthMonitor(r, vmon.AdminCfg{Name: "pprof", Routes: routes, Batches: r.N(4, 400),
+	vmon.AdminAuthMonitor(r, vmon.AdminCfg{TrustedProxy: trusted, Name: "pprof", Routes: routes, Batches: r.N(2, 200),
 		SetUsers: func(uj string) error {
 			var users []conf.AuthInternalUser
 			if err := json.Unmarshal([]byte(uj), &users); err != nil {
@@ -53,5 +60,7 @@ func TestVerifC04PPROF(t *testing.T) {
 			return nil
 		},
 		State: func() string { return "" }})
+		pp.Close()
+	}
 	r.Finish(vmon.AdminRule, "pprof part: routes are read from the live gin engine")
 }
